@@ -184,6 +184,10 @@ theorem exec_next_benign {e : Env} {s s' : St} {k : Kind} (h : exec e s k = .nex
     · cases h; rename_i ho; simp at ho; exact ⟨_, call_log .., by simp [benign, ho]⟩
     · cases h
     · cases h
+  case acmeIndex =>
+    split at h
+    · cases h; rename_i hc; simp at hc; exact ⟨_, call_log .., by simp [benign, hc]⟩
+    · cases h
   case acmeUpdateOrder =>
     split at h
     · cases h; rename_i ho; simp at ho; exact ⟨_, call_log .., by simp [benign, ho]⟩
@@ -341,7 +345,7 @@ theorem run_store (e : Env) (ks : List Kind) (s : St) (hmem : Kind.store ∈ ks)
 theorem store_mem (op : Op) (c : Cfg) (h : op.revokes = false) : Kind.store ∈ steps op c := by
   cases op <;> simp [Op.revokes] at h <;>
     simp [steps, authorizeSteps, authorizeTokenSteps, signX509Steps, signSSHSteps, renewContextSteps,
-      authorizeRenewSteps, storeRenewedSteps, renewSSHSteps, rekeySSHSteps, finalizeSteps]
+      authorizeRenewSteps, storeRenewedSteps, renewSSHSteps, rekeySSHSteps, finalizeSteps, finalizePre, finalizePost, createCertificateSteps, updateOrderSteps]
 
 /-- **stored_before_returned.** For every issuing operation (sign, renew, rekey, SSH sign /
     renew / rekey, ACME finalize), configuration, fault function and database state: if the
@@ -457,6 +461,16 @@ theorem token_spent (e e' : Env) (op : Op) (c c' : Cfg) (d : Durable)
     (hop : op.usesToken = true) (h0 : e.f 0 = .ok ∨ e.f 0 = .timeout) :
     client op (runOp e' op c' (runOp e op c d).1.d) = .error :=
   (spent_token_refused e' op c' _ hop (token_spent_after_attempt e op c d hop h0)).1
+
+/-! ### the step lists and the source -/
+
+/-- The three request paths through `Revoke` (token, mTLS, SSH) are sub-sequences of the
+    function body in source order (which the harness re-derives from the Go source on every
+    run and the driver compares with `revokeSourceOrder`). -/
+theorem revoke_paths_in_source_order :
+    revokeTokenSteps.isSublist revokeSourceOrder = true ∧
+    revokeMTLSSteps.isSublist revokeSourceOrder = true ∧
+    revokeSSHSteps.isSublist revokeSourceOrder = true := by decide
 
 /-! ### hypotheses are satisfiable (non-trivial instances) -/
 
